@@ -42,7 +42,7 @@ def run(ctx: Ctx) -> None:
     N = ctx.n(140, 12000) * (4 if ctx.broken else 1)
     ncoq = ctx.n(70, 1500)
     cases, raw = [], []
-    t_budget = time.time() + ctx.n(100, 3000)
+    t_budget = time.time() + ctx.n(100, 1500)
     for i in range(N):
         if time.time() > t_budget:
             ctx.extra['stopped_early_after'] = i
